@@ -31,6 +31,10 @@ GIANT_CFG = {'name': 'SimGiant', 'type': 'gas_giant', 'radius': 69911000.0, 'mas
              'semi_major_axis': 7.78e11, 'eccentricity': 0.048, 'tides_on': False, 'force_spin_sync': False,
              'tides': {'fixed_q': 8000.0}}
 SIMPLE_CFG = {'name': 'SimWorld', 'type': 'simple_tidal', 'radius': 5868000.0, 'mass': 2.316e+24}
+# a second tidal body that can share the orbit (always a simple CPL world; its own spin-sync flag)
+SECOND_CFG = {'name': 'SimCompanion', 'type': 'simple_tidal', 'radius': 1.5608e6, 'mass': 4.8e22,
+              'tides': {'model': 'global_approx', 'use_ctl': False, 'max_tidal_order_l': 2, 'eccentricity_truncation_lvl': 2,
+                        'obliquity_tides_on': True}, 'tides_on': True}
 
 
 def world_config(cfg):
@@ -68,14 +72,19 @@ class System:
         self.cfg = cfg
         self.star = t['build_world']('SimStar', copy.deepcopy(STAR_CFG))
         self.world = t['build_world'](world_config(cfg)['name'], world_config(cfg))
+        self.worlds = [self.world]
+        if cfg.get('n_bodies', 1) >= 2:
+            c2 = copy.deepcopy(SECOND_CFG)
+            c2['force_spin_sync'] = bool(cfg.get('sync2', True))
+            self.worlds.append(t['build_world']('SimCompanion', c2))
         if cfg['host'] == 'star':
             self.host = self.star
-            self.orbit = t['PhysicsOrbit'](self.star, tidal_host=self.star, tidal_bodies=[self.world], star_host=True)
+            self.orbit = t['PhysicsOrbit'](self.star, tidal_host=self.star, tidal_bodies=list(self.worlds), star_host=True)
         else:
             g = copy.deepcopy(GIANT_CFG)
             g['tides_on'] = bool(cfg.get('host_tides'))
             self.host = t['build_world']('SimGiant', g)
-            self.orbit = t['PhysicsOrbit'](self.star, tidal_host=self.host, tidal_bodies=[self.world])
+            self.orbit = t['PhysicsOrbit'](self.star, tidal_host=self.host, tidal_bodies=list(self.worlds))
         self.tidal_layers = []
         if hasattr(self.world, 'layers') and cfg['model'] == 'layered':
             self.tidal_layers = [l for l in self.world if getattr(l, 'is_tidal', False)]
@@ -95,7 +104,7 @@ class System:
     def apply(self, op):
         """Apply one operation through the public API."""
         n = abs(self.cfg.get('N', 0))
-        w, o = self.world, self.orbit
+        w, o = self.worlds[op.get('target', 0) % len(self.worlds)], self.orbit
         kind = op['op']
         a = {k: self.value(v, n) for k, v in op.get('args', {}).items()}
         if kind == 'w.set_state':
@@ -103,7 +112,7 @@ class System:
         elif kind == 'o.set_state':
             o.set_state(w, **a)
         elif kind == 'o.setter':
-            getattr(o, op['name'])(self._sig(op), a['value'])
+            getattr(o, op['name'])(w.name if op.get('sig') == 'name' else w, a['value'])
         elif kind == 'w.prop':
             setattr(w, op['name'], a['value'])
         elif kind == 'w.method':
@@ -123,23 +132,34 @@ class System:
         else:
             raise ValueError('unknown op %r' % kind)
 
-    def _sig(self, op):
-        how = op.get('sig', 'instance')
-        if how == 'name':
-            return self.world.name
-        return self.world
-
     # ---------------------------------------------------------------------------------------------
     def observe(self):
-        """Every derived quantity the property lists, as a flat {name: value} dict."""
-        w, o = self.world, self.orbit
+        """Every derived quantity the property lists, as a flat {name: value} dict (one block per tidal body)."""
         out = {}
+        for wi, w in enumerate(self.worlds):
+            self._observe_world(w, '' if wi == 0 else 'w%d.' % wi, out, with_layers=(wi == 0))
+        if self.cfg.get('host_tides') and self.host is not self.star:
+            h = self.host
+
+            def put(name, fn):
+                try:
+                    out[name] = fn()
+                except Exception as e:
+                    out[name] = ('raises', type(e).__name__)
+            put('host.tidal_heating_global', lambda: h.tidal_heating_global)
+            put('host.dUdM', lambda: h.dUdM)
+            put('host.dUdO', lambda: h.dUdO)
+            put('host.global_love_by_orderl', lambda: _plain(h.tides.global_love_by_orderl))
+        return out
+
+    def _observe_world(self, w, pre, out, with_layers):
+        o = self.orbit
 
         def put(name, fn):
             try:
-                out[name] = fn()
+                out[pre + name] = fn()
             except Exception as e:   # an accessor that raises is an observation too
-                out[name] = ('raises', type(e).__name__)
+                out[pre + name] = ('raises', type(e).__name__)
 
         td = w.tides
         put('unique_tidal_frequencies', lambda: _plain(td.unique_tidal_frequencies))
@@ -163,24 +183,18 @@ class System:
         put('eccentricity', lambda: w.eccentricity)
         put('obliquity', lambda: w.obliquity)
         put('time', lambda: w.time)
-        if self.cfg['model'] in ('cpl', 'ctl'):
+        if not hasattr(w, 'layers') or self.cfg['model'] in ('cpl', 'ctl') or not with_layers:
             put('fixed_q', lambda: w.fixed_q)
             put('fixed_dt', lambda: w.fixed_dt)
-        for i, layer in enumerate(getattr(self, 'all_layers', [])):
-            p = 'layer%d.' % i
-            put(p + 'temperature', lambda l=layer: l.temperature)
-            put(p + 'viscosity', lambda l=layer: l.viscosity)
-            put(p + 'shear_modulus', lambda l=layer: l.shear_modulus)
-            put(p + 'tidal_heating', lambda l=layer: l.tidal_heating)
-            put(p + 'complex_compliances', lambda l=layer: _plain(l.complex_compliances))
-            put(p + 'radiogenic_heating', lambda l=layer: l.radiogenic_heating)
-        if self.cfg.get('host_tides') and self.host is not self.star:
-            h = self.host
-            put('host.tidal_heating_global', lambda: h.tidal_heating_global)
-            put('host.dUdM', lambda: h.dUdM)
-            put('host.dUdO', lambda: h.dUdO)
-            put('host.global_love_by_orderl', lambda: _plain(h.tides.global_love_by_orderl))
-        return out
+        if with_layers:
+            for i, layer in enumerate(getattr(self, 'all_layers', [])):
+                p = 'layer%d.' % i
+                put(p + 'temperature', lambda l=layer: l.temperature)
+                put(p + 'viscosity', lambda l=layer: l.viscosity)
+                put(p + 'shear_modulus', lambda l=layer: l.shear_modulus)
+                put(p + 'tidal_heating', lambda l=layer: l.tidal_heating)
+                put(p + 'complex_compliances', lambda l=layer: _plain(l.complex_compliances))
+                put(p + 'radiogenic_heating', lambda l=layer: l.radiogenic_heating)
 
 
 def _plain(x):
